@@ -726,6 +726,11 @@ func (s *seqRT) ruleIterMap() {
 	c.check(derive, rule, "seq."+ctor+" Current()", s.w.FnPos(info.current), "key and value are the MapIter's current Key()/Value()", "Key must be the MapIter's current Key() and Val its current Value(), each component on its own (a nil interface key must not lose the entry's value): "+why)
 }
 
+// ruleIterChan: the channel iterator is decided observationally on the state its constructor builds (a
+// receive does not depend on earlier iterator state, so no induction is needed and the representation —
+// fields of a struct, variables captured by closures — is immaterial): every advance performs exactly one
+// comma-ok receive on the operand channel and returns its ok; Current().Key is the value of the latest
+// receive, and reading it changes nothing.
 func (s *seqRT) ruleIterChan() {
 	c := s.c
 	rule := "ITER.CHAN"
@@ -734,48 +739,104 @@ func (s *seqRT) ruleIterChan() {
 	if info == nil {
 		return
 	}
-	baseObj := info.base.Obj(info.obj)
-	chF := ""
-	for _, n := range info.fields {
-		if isSymNamed(ff(baseObj)[n], "ch") {
-			chF = n
+	recvKey := func(v AV) string { // recv.ok(ch, recv#k) / recv.val(ch, recv#k) -> "ch|recv#k"
+		e, ok := v.(Expr)
+		if !ok || len(e.Args) != 2 {
+			return ""
 		}
+		return canon(e.Args[0]) + "|" + canon(e.Args[1])
 	}
-	if chF == "" {
-		c.bad(rule, "seq."+ctor+" operand", s.w.FnPos(info.ctor), "constructor does not keep the channel")
-		return
-	}
-	st, r := info.symbolicObj()
-	outs := s.runMethod(st, info.moveNext, r)
-	good := len(outs) == 1 && !outs[0].Panicked && len(outs[0].Ret) == 1
-	vf := ""
-	if good {
-		n := 0
-		for _, e := range outs[0].St.Events {
-			if e.Kind == "recv" {
-				n++
-				good = good && canon(e.Args[0]) == "⟨F:"+chF+"⟩"
-			} else if e.Kind != "load" {
-				good = false
+	effects := func(evs []Event) (recvs []Event, other string) {
+		for _, e := range evs {
+			switch e.Kind {
+			case "recv":
+				recvs = append(recvs, e)
+			case "send", "go", "defer", "mapupdate", "panic":
+				other = e.String()
+			case "call", "invoke":
+				if e.Fn == nil || e.Fn.Pkg == nil || e.Fn.Pkg.Pkg.Path() != pathSeq {
+					other = "call of " + e.Name()
+				}
 			}
 		}
-		good = good && n == 1
-		ret := canon(outs[0].Ret[0])
-		good = good && strings.HasPrefix(ret, "recv.ok(")
-		after := outs[0].St.Obj(r)
-		for _, f := range info.fields {
-			if strings.HasPrefix(canon(ff(after)[f]), "recv.val(") {
-				vf = f
-			}
-		}
-		good = good && vf != ""
-	}
-	if !c.check(good, rule, "seq."+ctor+" MoveNext", s.w.FnPos(info.moveNext), "exactly one comma-ok receive on the iterator's channel: the value is stored, ok is returned (values until close)", "MoveNext must be `v, ok = <-ch; return ok` on the iterator's own channel") {
 		return
 	}
-	curOuts, _ := s.checkPure(info, rule, ctor)
-	okCur := len(curOuts) == 1 && len(curOuts[0].Ret) == 1 && canon(pairField(curOuts[0].Ret[0], "Key")) == "⟨F:"+vf+"⟩"
-	c.check(okCur, rule, "seq."+ctor+" Current()", s.w.FnPos(info.current), "Key is the value received by the latest advance", "Current().Key is not the stored received value")
+	st := info.base
+	posM, posC := s.w.FnPos(info.moveNext), s.w.FnPos(info.current)
+	var prevKey string
+	for step := 1; step <= 2; step++ {
+		ne := len(st.Events)
+		outs := s.runMethod(st, info.moveNext, info.obj)
+		construct := fmt.Sprintf("seq.%s MoveNext (advance %d)", ctor, step)
+		if len(outs) != 1 || outs[0].Panicked || len(outs[0].Ret) != 1 {
+			c.bad(rule, construct, posM, "MoveNext must be `v, ok = <-ch; return ok`: one straight-line path")
+			return
+		}
+		recvs, other := effects(outs[0].St.Events[ne:])
+		ret, _ := outs[0].Ret[0].(Expr)
+		good := other == "" && len(recvs) == 1 && isSymNamed(recvs[0].Args[0], "ch") && ret.Op == "recv.ok" && recvKey(ret) != "" && recvKey(ret) != prevKey
+		why := other
+		if why == "" {
+			why = fmt.Sprintf("%d receive(s), result %s", len(recvs), canon(outs[0].Ret[0]))
+		}
+		if !c.check(good, rule, construct, posM, "exactly one comma-ok receive on the operand channel; its ok is returned (values until close)", "MoveNext must be `v, ok = <-ch; return ok` on the iterator's own channel: "+why) {
+			return
+		}
+		prevKey = recvKey(ret)
+		st = outs[0].St
+		// Current: the value of that receive, read without effect (the range template calls it up to twice)
+		for again := 1; again <= 2; again++ {
+			ne = len(st.Events)
+			curOuts := s.runMethod(st, info.current, info.obj)
+			construct = fmt.Sprintf("seq.%s Current() (after advance %d, read %d)", ctor, step, again)
+			if len(curOuts) != 1 || curOuts[0].Panicked || len(curOuts[0].Ret) != 1 {
+				c.bad(rule, construct, posC, "Current() must be a single straight-line path")
+				return
+			}
+			r2, other2 := effects(curOuts[0].St.Events[ne:])
+			stores := 0
+			for _, e := range curOuts[0].St.Events[ne:] {
+				if e.Kind == "store" {
+					stores++
+				}
+			}
+			pure := other2 == "" && len(r2) == 0 && stores == 0 && sameHeap(st, curOuts[0].St)
+			c.check(pure, "ITER.PURE", construct, posC, "Current() is a pure read of iterator state (the range template calls it up to twice per iteration)", "Current() of the channel iterator has an effect (a receive, a store, a call out of the package, or a changed iterator variable)")
+			key, _ := pairField(curOuts[0].Ret[0], "Key").(Expr)
+			c.check(key.Op == "recv.val" && recvKey(key) == prevKey, rule, construct, posC, "Key is the value received by the latest advance", "Current().Key is not the value of the latest receive: "+canon(pairField(curOuts[0].Ret[0], "Key")))
+			st = curOuts[0].St
+		}
+	}
+}
+
+// sameHeap: every heap object present in a has the same contents in b (objects allocated since are ignored)
+func sameHeap(a, b *State) bool {
+	for id, oa := range a.heap {
+		ob := b.heap[id]
+		if ob == nil {
+			return false
+		}
+		if oa == ob {
+			continue
+		}
+		if !sameAV(oa.Val, ob.Val) && !(oa.Val == nil && ob.Val == nil) {
+			return false
+		}
+		if len(oa.Fields) != len(ob.Fields) || len(oa.Elems) != len(ob.Elems) {
+			return false
+		}
+		for k, v := range oa.Fields {
+			if !sameAV(v, ob.Fields[k]) {
+				return false
+			}
+		}
+		for i, v := range oa.Elems {
+			if !sameAV(v, ob.Elems[i]) {
+				return false
+			}
+		}
+	}
+	return true
 }
 
 func (s *seqRT) ruleIters() {
